@@ -46,6 +46,11 @@ def check_case(sink, c, o):  # noqa: C901
         rebuilt_b = optree.tree_unflatten(spec, iter(leaves))
         d = same.diff(c.tree, rebuilt_b, leaf_ids=leaf_ids)
         sink.check(d is None, 'roundtrip/tree_unflatten-not-same', 'tree_unflatten(spec, iter(leaves)) is the same tree', ident, d)
+        # 1b. the treespec returned by every other flatten entry point rebuilds the tree just the same
+        for name, (lv_x, sp_x) in (('tree_flatten_with_path', optree.tree_flatten_with_path(c.tree, **kw)[1:]), ('tree_flatten_with_accessor', optree.tree_flatten_with_accessor(c.tree, **kw)[1:]),
+                                   ('tree_structure', (leaves, optree.tree_structure(c.tree, **kw)))):
+            d = same.diff(c.tree, sp_x.unflatten(iter(lv_x)), leaf_ids=leaf_ids)
+            sink.check(d is None, f'roundtrip/{name}', f'unflattening the treespec returned by {name} with its leaves is the same tree', ident, d)
         # 2. re-flatten
         leaves2, spec2 = optree.tree_flatten(rebuilt, **kw)
         ok = len(leaves2) == len(leaves) and all(a is b for a, b in zip(leaves, leaves2))
